@@ -98,7 +98,14 @@ def stepGate (cfg : Cfg) (s : MSt) (t : Nat) (a : Act) : MSt × Res :=
     if s.isOpen then (s, .dash)
     else ({ s with isOpen := true, cycles := s.cycles + 1, passed := s.passed + s.queue.length,
                    out := s.out ++ s.queue.map (·.id), queue := [] }, .dash)
-  | .closeG => ({ s with isOpen := false }, .dash)
+  | .copen =>
+    if s.isOpen then (s, .dash)
+    else ({ s with isOpen := true, cycles := s.cycles + 1, passed := s.passed + s.queue.length,
+                   out := s.out ++ s.queue.map (·.id), queue := [] }, .dash)
+  | .closeG =>
+    -- repaired (fixes/C08-indus-gate-overlapping-windows.diff): a schedule close inside another window is ignored
+    if cfg.repaired && covered cfg.windows t then (s, .dash) else ({ s with isOpen := false }, .dash)
+  | .cclose => ({ s with isOpen := false }, .dash)
   | .done id => sinkStep s id
   | _ => (s, .err)
 
